@@ -155,3 +155,84 @@ def decProgram : Sexp → Option Program
   | _ => none
 
 end Tsh
+
+/-! ### printing (exactly the format of harness/dump.go) -/
+namespace Tsh
+
+def encHex (s : String) : String := "x" ++ hexOfString s
+def enc01 (b : Bool) : String := if b then "1" else "0"
+def encVT (v : ValueType) : String := v.name
+def encVar (v : Var) : String := s!"(var {encHex v.name} {encVT v.vt} {enc01 v.global} {enc01 v.pub})"
+def encVars (vs : List Var) : String := "(" ++ " ".intercalate (vs.map encVar) ++ ")"
+def encVTs (vs : List ValueType) : String := "(" ++ " ".intercalate (vs.map encVT) ++ ")"
+
+mutual
+def encExpr : Expr → String
+  | .boolLit b => s!"(bool {enc01 b})"
+  | .intLit n => s!"(int {n})"
+  | .strLit s => s!"(str {encHex s})"
+  | .varEval v => encVar v
+  | .unary op e vt => s!"(un {encHex op} {encExpr e} {encVT vt})"
+  | .binary op l r => s!"(bin {encHex op} {encExpr l} {encExpr r})"
+  | .compare op l r => s!"(cmp {encHex op} {encExpr l} {encExpr r})"
+  | .logical op l r => s!"(log {encHex op} {encExpr l} {encExpr r})"
+  | .group e => s!"(group {encExpr e})"
+  | .call n rets args => s!"(call {encHex n} {encVTs rets} ({encExprs args}))"
+  | .app n args next => s!"(app {encHex n} ({encExprs args}) {encOptExpr next})"
+  | .sliceNew dt vals => s!"(slicenew {dt.name} ({encExprs vals}))"
+  | .sliceEval v i dt => s!"(sliceeval {encExpr v} {encExpr i} {dt.name})"
+  | .substr v a b => s!"(substr {encExpr v} {encExpr a} {encOptExpr b})"
+  | .len e => s!"(len {encExpr e})"
+  | .itoa e => s!"(itoa {encExpr e})"
+  | .exists_ e => s!"(exists {encExpr e})"
+  | .read e => s!"(read {encExpr e})"
+  | .input p => s!"(input {encOptExpr p})"
+  | .copy d s => s!"(copy {encVar d} {encExpr s})"
+  | .write p d a => s!"(write {encExpr p} {encExpr d} {encOptExpr a})"
+  | .bad w => s!"(unknown {encHex w})"
+
+def encOptExpr : Option Expr → String
+  | none => "nil"
+  | some e => encExpr e
+
+def encExprs : List Expr → String
+  | [] => ""
+  | [e] => encExpr e
+  | e :: rest => encExpr e ++ " " ++ encExprs rest
+end
+
+mutual
+def encStmt : Stmt → String
+  | .varDef vars vals => s!"(vardef {encVars vars} ({encExprs vals}))"
+  | .varDefCall vars call => s!"(vardefcall {encVars vars} {encExpr call})"
+  | .assign vars vals => s!"(assign {encVars vars} ({encExprs vals}))"
+  | .assignCall vars call => s!"(assigncall {encVars vars} {encExpr call})"
+  | .sliceAssign v i e => s!"(sliceassign {encVar v} {encExpr i} {encExpr e})"
+  | .funcDef n pub rets params body => s!"(func {encHex n} {enc01 pub} {encVTs rets} {encVars params} ({encStmts body}))"
+  | .ret vals => s!"(return ({encExprs vals}))"
+  | .ifS c body elifs els => s!"(if (br {encExpr c} ({encStmts body})) ({encBranches elifs}) ({encStmts els}))"
+  | .forS init c incr body => s!"(for {encOptStmt init} {encExpr c} {encOptStmt incr} ({encStmts body}))"
+  | .brk => "(break)"
+  | .cont => "(continue)"
+  | .print es => s!"(print ({encExprs es}))"
+  | .panic e => s!"(panic {encExpr e})"
+  | .expr e => encExpr e
+
+def encOptStmt : Option Stmt → String
+  | none => "nil"
+  | some s => encStmt s
+
+def encStmts : List Stmt → String
+  | [] => ""
+  | [s] => encStmt s
+  | s :: rest => encStmt s ++ " " ++ encStmts rest
+
+def encBranches : List (Expr × List Stmt) → String
+  | [] => ""
+  | [(c, b)] => s!"(br {encExpr c} ({encStmts b}))"
+  | (c, b) :: rest => s!"(br {encExpr c} ({encStmts b})) " ++ encBranches rest
+end
+
+def encProgram (p : Program) : String := s!"(prog ({encStmts p}))"
+
+end Tsh
